@@ -153,26 +153,51 @@ def candidates (e : Env) (sN back n : Nat) (mapping rmapping : Dict) : List Nat 
       else pure tl
     else pure tl
 
+/-- `path[order_depth[m]]`: image of pattern atom `m` under the partial assignment `path` (images of `lq[0..]` in order) -/
+def img (lq : List Step) (path : List Nat) (m : Nat) : Option Nat := do
+  let i ← orderDepth lq m
+  path[i]?
+
+/-- the body of one iteration with `depth != size`: truncate `path`/`mapping`/`reversed_mapping` to `depth`, record
+    `current ↦ n`, and compute what the `for o_n, o_bond in o_bonds[n].items()` loop pushes for the next step.
+    Returns the new `(path, mapping, reversed_mapping)` and the pushed atoms in push order. `none` = KeyError/IndexError. -/
+def stepDown (e : Env) (depth n current : Nat) (path : List Nat) (mapping rmapping : Dict) :
+    Option (List Nat × Dict × Dict × List Nat) :=
+  match (if path.length != depth then truncate (path.drop depth) mapping rmapping else some (mapping, rmapping)) with
+  | none => none
+  | some (mapping, rmapping) =>
+    let path := path.take depth ++ [n]
+    let mapping := mapping.set current n
+    let rmapping := rmapping.set n current
+    match e.lq[depth + 1]? with
+    | none => none
+    | some nxt =>
+      match nxt.back with
+      | none => none
+      | some back =>
+        -- `if back != current: n = path[order_depth[back]]`
+        match (if back != current then img e.lq path back else some n) with
+        | none => none
+        | some n' =>
+          match candidates e nxt.front back n' mapping rmapping (e.t.nbrs n') with
+          | none => none
+          | some cands => some (path, mapping, rmapping, cands)
+
 /-- the `while stack:` loop; `acc` collects the yielded dicts in reverse order -/
 def runLoop (e : Env) (size : Nat) : Nat → List (Nat × Nat) → List Nat → Dict → Dict → List Dict → Option (List Dict)
   | 0, _, _, _, _, _ => none
   | _+1, [], _, _, _, acc => some acc.reverse
-  | fuel+1, (n, depth) :: stack, path, mapping, rmapping, acc => do
-    let cur ← e.lq[depth]?
-    let current := cur.front
-    if depth == size then
-      runLoop e size fuel stack path mapping rmapping (mapping.set current n :: acc)   -- `yield {**mapping, current: n}`
-    else
-      let (mapping, rmapping) ←
-        if path.length != depth then truncate (path.drop depth) mapping rmapping else some (mapping, rmapping)
-      let path := path.take depth ++ [n]
-      let mapping := mapping.set current n
-      let rmapping := rmapping.set n current
-      let nxt ← e.lq[depth + 1]?
-      let back ← nxt.back
-      let n' ← if back != current then (do let i ← orderDepth e.lq back; path[i]?) else some n
-      let cands ← candidates e nxt.front back n' mapping rmapping (e.t.nbrs n')
-      runLoop e size fuel (cands.reverse.map (·, depth + 1) ++ stack) path mapping rmapping acc
+  | fuel+1, (n, depth) :: stack, path, mapping, rmapping, acc =>
+    match e.lq[depth]? with
+    | none => none
+    | some cur =>
+      if depth == size then
+        runLoop e size fuel stack path mapping rmapping (mapping.set cur.front n :: acc)   -- `yield {**mapping, current: n}`
+      else
+        match stepDown e depth n cur.front path mapping rmapping with
+        | none => none
+        | some (path, mapping, rmapping, cands) =>
+          runLoop e size fuel (cands.reverse.map (·, depth + 1) ++ stack) path mapping rmapping acc
 
 /-- potential bound on the number of iterations: `|T|·(|T|+1)^(len+1) + 1` -/
 def machineFuel (e : Env) : Nat := e.oAtoms.length * (e.oAtoms.length + 1) ^ (e.lq.length + 1) + 1
@@ -190,11 +215,6 @@ def getMapping (e : Env) : Option (List Dict) :=
   | _ :: _ => runLoop e (e.lq.length - 1) (machineFuel e) ((roots e).reverse.map (·, 0)) [] [] [] []
 
 /-! ## the recursive reference enumerator (same candidate tests, no explicit stack, mapping = function of the path) -/
-
-/-- image of pattern atom `m` under the partial assignment `path` (images of `lq[0..]` in order) -/
-def img (lq : List Step) (path : List Nat) (m : Nat) : Option Nat := do
-  let i ← orderDepth lq m
-  path[i]?
 
 /-- candidates for `lq[depth]` given the images `path` of `lq[0..depth-1]` — in adjacency order of the parent image -/
 def children (e : Env) (depth : Nat) (path : List Nat) : List Nat :=
